@@ -18,6 +18,38 @@ theorem fanOut_all_ok {α} (f : α → α × Ret) (xs : List α) (h : ∀ e ∈ 
     simp only [fanOut, he, ne_eq, not_true_eq_false, ite_false, List.map_cons]
     exact ⟨ih'.1, by rw [ih'.2]⟩
 
+theorem fanOut_ok_all {α} (f : α → α × Ret) (xs : List α) (h : (fanOut f xs).2.code = 0) :
+    ∀ e ∈ xs, (f e).2.code = 0 := by
+  induction xs with
+  | nil => intro e he; cases he
+  | cons e es ih =>
+    by_cases he : (f e).2.code ≠ 0
+    · simp only [fanOut] at h; rw [if_pos he] at h; exact absurd h he
+    · simp only [fanOut] at h; rw [if_neg he] at h
+      intro x hx
+      rcases List.mem_cons.mp hx with rfl | hx
+      · exact Decidable.not_not.mp he
+      · exact ih h x hx
+
+/-- If a refusal by any stream implies a refusal by the FIRST stream, and a refusing stream is left
+    unchanged, then a fan-out that reports an error has changed nothing. -/
+theorem fanOut_fail_unchanged' {α} (f : α → α × Ret) (xs : List α)
+    (hfail : ∀ e ∈ xs, (f e).2.code ≠ 0 → (f e).1 = e)
+    (hhead : ∀ e0 es, xs = e0 :: es → (∃ e ∈ xs, (f e).2.code ≠ 0) → (f e0).2.code ≠ 0)
+    (h : (fanOut f xs).2.code ≠ 0) : (fanOut f xs).1 = xs := by
+  cases xs with
+  | nil => simp [fanOut, Ret.ok] at h
+  | cons e es =>
+    have hex : ∃ x ∈ e :: es, (f x).2.code ≠ 0 := by
+      apply Classical.byContradiction
+      intro hn
+      have hall : ∀ x ∈ e :: es, (f x).2.code = 0 := fun x hx =>
+        Classical.byContradiction fun hx0 => hn ⟨x, hx, hx0⟩
+      exact h (fanOut_all_ok f (e :: es) hall).1
+    have he := hhead e es rfl hex
+    simp only [fanOut]
+    rw [if_pos he, hfail e (List.mem_cons_self) he]
+
 /-- If the streams agree on whether they refuse, and a refusing stream is left unchanged, then a
     fan-out that reports an error has changed nothing. -/
 theorem fanOut_fail_unchanged {α} (f : α → α × Ret) (xs : List α)
@@ -41,30 +73,39 @@ theorem fanOut_fail_unchanged {α} (f : α → α × Ret) (xs : List α)
 
 /-! ### Multistream encoder -/
 
-/-- What the streams of a multistream encoder have in common.  `uniform` holds after creation and
-    after any successful `opus_multistream_encode` (every stream codes every frame); `layout` is
-    the creation order: coupled (stereo) streams first. -/
+/-- What the streams of a multistream encoder have in common: the application; and no stream has
+    coded a frame before the first stream has (`firstHead`: a stream starved of bits by the rate
+    allocation keeps `first = 1`, but streams are served in order — monitored after every
+    `opus_multistream_encode` by suite `ctl-rand`); `layout` is the creation order: coupled (stereo)
+    streams first. -/
 structure MsInv (s : MsEncSt) : Prop where
   streams : ∀ e ∈ s.streams, EncInv e
-  uniform : ∀ e ∈ s.streams, ∀ e' ∈ s.streams, e.first = e'.first ∧ e.application = e'.application
+  app : ∀ e ∈ s.streams, ∀ e' ∈ s.streams, e.application = e'.application
+  firstHead : ∀ e0 es, s.streams = e0 :: es → ∀ e ∈ s.streams, e.first = false → e0.first = false
   layout : s.nbCoupled < s.nbStreams ∨ ∀ e ∈ s.streams, e.channels = 2
 
-/-- Streams agree on the legality of every fanned-out request that reaches the loop. -/
-theorem ms_legal_uniform {s : MsEncSt} (hi : MsInv s) (k : EncSetK) (v : Int)
-    (hk : ¬ (k = .forceChannels ∧ v = 2 ∧ s.nbCoupled < s.nbStreams)) :
-    ∀ e ∈ s.streams, ∀ e' ∈ s.streams, (EncLegal e k v ↔ EncLegal e' k v) := by
-  intro e he e' he'
-  have hu := hi.uniform e he e' he'
+/-- If some stream refuses a fanned-out request that reaches the loop, the first stream refuses it. -/
+theorem ms_illegal_head {s : MsEncSt} (hi : MsInv s) (k : EncSetK) (v : Int)
+    (hk : ¬ (k = .forceChannels ∧ v = 2 ∧ s.nbCoupled < s.nbStreams)) (e0 : EncSt) (es : List EncSt)
+    (hs : s.streams = e0 :: es) : (∃ e ∈ s.streams, ¬ EncLegal e k v) → ¬ EncLegal e0 k v := by
+  rintro ⟨e, he, hill⟩
+  have he0 : e0 ∈ s.streams := by rw [hs]; exact List.mem_cons_self
+  have happ := hi.app e he e0 he0
+  have hfirst := hi.firstHead e0 es hs e he
   have hc := (hi.streams e he).1.ch
-  have hc' := (hi.streams e' he').1.ch
-  cases k <;> simp only [EncLegal] <;> try rfl
-  · rw [hu.1, hu.2]
+  have hc' := (hi.streams e0 he0).1.ch
+  cases k <;> simp only [EncLegal] at hill ⊢ <;> try exact hill
+  · -- application
+    intro ⟨h1, h2⟩
+    apply hill
+    refine ⟨h1, fun hf => ?_⟩
+    rw [happ]; exact h2 (hfirst hf)
   · -- forceChannels
     by_cases hv : v = 2
     · have : ¬ s.nbCoupled < s.nbStreams := fun h => hk ⟨rfl, hv, h⟩
       rcases hi.layout with h | h
       · exact absurd h this
-      · rw [h e he, h e' he']
+      · rw [h e he] at hill; rw [h e0 he0]; exact hill
     · omega
 
 theorem encCtl_set_code (e : EncSt) (k : EncSetK) (v : Int) : (encCtl e (.set k v)).2.code ≠ 0 ↔ ¬ EncLegal e k v := by
@@ -92,12 +133,13 @@ theorem msEncCtl_error_unchanged {s : MsEncSt} (hi : MsInv s) (r : MsEncReq) (h 
           simp [this]
         all_goals simp
       rw [hgen] at hcode ⊢
-      have := fanOut_fail_unchanged (fun e => encCtl e (.set k v)) s.streams
+      have := fanOut_fail_unchanged' (fun e => encCtl e (.set k v)) s.streams
         (fun e _ hc => by
           have := (encCtl_set_code e k v).mp hc
           rw [encCtl_set_reject e k v this])
-        (fun e he e' he' => by
-          rw [encCtl_set_code, encCtl_set_code, ms_legal_uniform hi k v hr e he e' he'])
+        (fun e0 es hs hex => by
+          obtain ⟨e, he, hc⟩ := hex
+          exact (encCtl_set_code e0 k v).mpr (ms_illegal_head hi k v hr e0 es hs ⟨e, he, (encCtl_set_code e k v).mp hc⟩))
         hcode
       simp only [this]
   cases r with
@@ -161,79 +203,98 @@ theorem msEncCtl_set_all {s : MsEncSt} (k : EncSetK) (v : Int) (hk : msEncFwdSet
   rw [h2]
   exact encSet_readBack e s' k v g h1 hg
 
+theorem encCtl_channels (q : EncReq) (e : EncSt) : (encCtl e q).1.channels = e.channels := by
+  cases q with
+  | set k v =>
+    simp only [encCtl]
+    cases hs : encSet e k v with
+    | none => rfl
+    | some s' =>
+      cases k <;> simp only [encSet, validFrameDuration] at hs <;>
+        first
+        | (obtain ⟨_, rfl⟩ := ite_none_some hs; rfl)
+        | (obtain ⟨_, rfl⟩ := ite_some_none hs; rfl)
+        | (simp only [Option.some.injEq] at hs; subst hs; rfl)
+        | skip
+      -- bitrate
+      consts
+      split at hs
+      · split at hs
+        · simp at hs
+        · split at hs
+          · simp only [Option.some.injEq] at hs; subst hs; rfl
+          · split at hs <;> (simp only [Option.some.injEq] at hs; subst hs; rfl)
+      · simp only [Option.some.injEq] at hs; subst hs; rfl
+  | get k nn => cases nn <;> rfl
+  | resetState => rfl
+  | setEnergyMask p => rfl
+  | celtGetMode nn => cases nn <;> rfl
+  | unknown id => rfl
+
+/-- Effect of a successful single-stream setter on `first` / `application`. -/
+theorem encSet_first_app {e s' : EncSt} {k : EncSetK} {v : Int} (h : encSet e k v = some s') :
+    s'.first = e.first ∧ s'.application = (if k = .application then v else e.application) := by
+  cases k <;> simp only [encSet, validFrameDuration] at h <;>
+    first
+    | (obtain ⟨_, rfl⟩ := ite_none_some h; exact ⟨rfl, rfl⟩)
+    | (obtain ⟨_, rfl⟩ := ite_some_none h; exact ⟨rfl, rfl⟩)
+    | (simp only [Option.some.injEq] at h; subst h; exact ⟨rfl, rfl⟩)
+    | skip
+  consts
+  split at h
+  · split at h
+    · simp at h
+    · split at h
+      · simp only [Option.some.injEq] at h; subst h; exact ⟨rfl, rfl⟩
+      · split at h <;> (simp only [Option.some.injEq] at h; subst h; exact ⟨rfl, rfl⟩)
+  · simp only [Option.some.injEq] at h; subst h; exact ⟨rfl, rfl⟩
+
 /-- A multistream request preserves `MsInv`. -/
 theorem msEncCtl_inv {s : MsEncSt} (hi : MsInv s) (r : MsEncReq) : MsInv (msEncCtl s r).1 := by
-  -- every stream is transformed by the same single-stream request, or the state is unchanged
-  have key : ∀ (q : EncReq), (∀ e ∈ s.streams, ∀ e' ∈ s.streams,
-        ((encCtl e q).2.code ≠ 0 ↔ (encCtl e' q).2.code ≠ 0)) →
-      (∀ e, (encCtl e q).2.code ≠ 0 → (encCtl e q).1 = e) →
-      (∀ e ∈ s.streams, ∀ e' ∈ s.streams, (encCtl e q).1.first = (encCtl e' q).1.first ∧
-          (encCtl e q).1.application = (encCtl e' q).1.application) →
-      (∀ e, (encCtl e q).1.channels = e.channels) →
+  -- a fan-out either fails (then nothing changed, `msEncCtl_error_unchanged`) or maps every stream
+  have key : ∀ (q : EncReq), (fanOut (fun e => encCtl e q) s.streams).2.code = 0 →
+      (∀ e ∈ s.streams, ∀ e' ∈ s.streams, (encCtl e q).1.application = (encCtl e' q).1.application) →
+      (∀ e ∈ s.streams, ∀ e' ∈ s.streams, ((encCtl e q).1.first = false → e.first = false) ∧
+          (e'.first = false → (encCtl e' q).1.first = false) ∨
+          ((encCtl e q).1.first = true ∧ (encCtl e' q).1.first = true)) →
       MsInv { s with streams := (fanOut (fun e => encCtl e q) s.streams).1 } := by
-    intro q huni hfail hfa hch
-    by_cases hc : (fanOut (fun e => encCtl e q) s.streams).2.code ≠ 0
-    · have := fanOut_fail_unchanged (fun e => encCtl e q) s.streams (fun e _ h => hfail e h) huni hc
-      rw [this]; exact hi
-    · have hall : ∀ e ∈ s.streams, (encCtl e q).2.code = 0 := by
-        intro e he
-        cases hs : s.streams with
-        | nil => rw [hs] at he; cases he
-        | cons e0 es =>
-          by_cases h0 : (encCtl e q).2.code = 0
-          · exact h0
-          · exfalso
-            have h00 : (encCtl e0 q).2.code ≠ 0 := (huni e he e0 (by rw [hs]; exact List.mem_cons_self)).mp h0
-            apply hc
-            rw [hs]; simp only [fanOut]; rw [if_pos h00]; exact h00
-      have hmap := (fanOut_all_ok (fun e => encCtl e q) s.streams hall).2
-      refine ⟨?_, ?_, ?_⟩
-      · intro e' he'
+    intro q hc happ hfirst
+    have hall := fanOut_ok_all (fun e => encCtl e q) s.streams hc
+    have hmap := (fanOut_all_ok (fun e => encCtl e q) s.streams hall).2
+    refine ⟨?_, ?_, ?_, ?_⟩
+    · intro e' he'
+      simp only [hmap, List.mem_map] at he'
+      obtain ⟨e, he, rfl⟩ := he'
+      exact encCtl_inv (hi.streams e he) q
+    · intro a ha b hb
+      simp only [hmap, List.mem_map] at ha hb
+      obtain ⟨e, he, rfl⟩ := ha
+      obtain ⟨e', he', rfl⟩ := hb
+      exact happ e he e' he'
+    · intro a0 as hs a ha hf
+      simp only [hmap] at hs ha
+      cases hst : s.streams with
+      | nil => rw [hst] at ha; simp at ha
+      | cons e0 es =>
+        rw [hst] at hs
+        simp only [List.map_cons, List.cons.injEq] at hs
+        obtain ⟨rfl, _⟩ := hs
+        simp only [List.mem_map] at ha
+        obtain ⟨e, he, rfl⟩ := ha
+        have he0 : e0 ∈ s.streams := by rw [hst]; exact List.mem_cons_self
+        rcases hfirst e he e0 he0 with ⟨h1, h2⟩ | ⟨h1, _⟩
+        · exact h2 (hi.firstHead e0 es hst e he (h1 hf))
+        · rw [h1] at hf; cases hf
+    · rcases hi.layout with h | h
+      · exact Or.inl h
+      · right
+        intro e' he'
         simp only [hmap, List.mem_map] at he'
         obtain ⟨e, he, rfl⟩ := he'
-        exact encCtl_inv (hi.streams e he) q
-      · intro a ha b hb
-        simp only [hmap, List.mem_map] at ha hb
-        obtain ⟨e, he, rfl⟩ := ha
-        obtain ⟨e', he', rfl⟩ := hb
-        exact hfa e he e' he'
-      · rcases hi.layout with h | h
-        · exact Or.inl h
-        · right
-          intro e' he'
-          simp only [hmap, List.mem_map] at he'
-          obtain ⟨e, he, rfl⟩ := he'
-          rw [hch e]; exact h e he
-  have hfailAll : ∀ q e, (encCtl e q).2.code ≠ 0 → (encCtl e q).1 = e :=
-    fun q e h => (encCtl_error_unchanged e q h).1
-  have hchAll : ∀ q e, (encCtl e q).1.channels = e.channels := by
-    intro q e
-    cases q with
-    | set k v =>
-      simp only [encCtl]
-      cases hs : encSet e k v with
-      | none => rfl
-      | some s' =>
-        cases k <;> simp only [encSet, validFrameDuration] at hs <;>
-          first
-          | (obtain ⟨_, rfl⟩ := ite_none_some hs; rfl)
-          | (obtain ⟨_, rfl⟩ := ite_some_none hs; rfl)
-          | (simp only [Option.some.injEq] at hs; subst hs; rfl)
-          | skip
-        -- bitrate
-        consts
-        split at hs
-        · split at hs
-          · simp at hs
-          · split at hs
-            · simp only [Option.some.injEq] at hs; subst hs; rfl
-            · split at hs <;> (simp only [Option.some.injEq] at hs; subst hs; rfl)
-        · simp only [Option.some.injEq] at hs; subst hs; rfl
-    | get k nn => cases nn <;> rfl
-    | resetState => rfl
-    | setEnergyMask p => rfl
-    | celtGetMode nn => cases nn <;> rfl
-    | unknown id => rfl
+        rw [encCtl_channels q e]; exact h e he
+  by_cases hcode : (msEncCtl s r).2.code ≠ 0
+  · rw [msEncCtl_error_unchanged hi r hcode]; exact hi
+  have hcode : (msEncCtl s r).2.code = 0 := Decidable.not_not.mp hcode
   cases r with
   | set k v =>
     by_cases hk : msEncFwdSet k = true
@@ -241,32 +302,34 @@ theorem msEncCtl_inv {s : MsEncSt} (hi : MsInv s) (r : MsEncReq) : MsInv (msEncC
       · obtain ⟨rfl, hv, hlt⟩ := hr
         have : (msEncCtl s (.set .forceChannels v)).1 = s := by simp [msEncCtl, msEncFwdSet, hv, hlt]
         rw [this]; exact hi
-      · have hgen : (msEncCtl s (.set k v)).1 =
-            { s with streams := (fanOut (fun e => encCtl e (.set k v)) s.streams).1 } := by
+      · have hgen : msEncCtl s (.set k v) =
+            ({ s with streams := (fanOut (fun e => encCtl e (.set k v)) s.streams).1 },
+             (fanOut (fun e => encCtl e (.set k v)) s.streams).2) := by
           cases k <;> simp only [msEncFwdSet, Bool.false_eq_true] at hk <;> simp only [msEncCtl, msEncFwdSet, ite_true]
           case forceChannels =>
             have : ¬ (v = 2 ∧ s.nbCoupled < s.nbStreams) := fun h => hr ⟨rfl, h.1, h.2⟩
             simp [this]
           all_goals simp
-        rw [hgen]
-        apply key (.set k v)
+        rw [hgen] at hcode ⊢
+        have hall := fanOut_ok_all (fun e => encCtl e (.set k v)) s.streams hcode
+        have hsome : ∀ e ∈ s.streams, ∃ s', encSet e k v = some s' ∧ (encCtl e (.set k v)).1 = s' := by
+          intro e he
+          have hl : EncLegal e k v := by
+            apply Classical.byContradiction
+            intro hn; exact (encCtl_set_code e k v).mpr hn (hall e he)
+          obtain ⟨s', h1, h2⟩ := encCtl_set_ok e k v hl
+          exact ⟨s', h1, by rw [h2]⟩
+        apply key (.set k v) hcode
         · intro e he e' he'
-          rw [encCtl_set_code, encCtl_set_code, ms_legal_uniform hi k v hr e he e' he']
-        · exact hfailAll _
+          obtain ⟨s1, h1, e1⟩ := hsome e he
+          obtain ⟨s2, h2, e2⟩ := hsome e' he'
+          rw [e1, e2, (encSet_first_app h1).2, (encSet_first_app h2).2, hi.app e he e' he']
         · intro e he e' he'
-          have hu := hi.uniform e he e' he'
-          have hl := ms_legal_uniform hi k v hr e he e' he'
-          by_cases hle : EncLegal e k v
-          · obtain ⟨s1, h1, h1'⟩ := encCtl_set_ok e k v hle
-            obtain ⟨s2, h2, h2'⟩ := encCtl_set_ok e' k v (hl.mp hle)
-            rw [h1', h2']
-            cases k <;> simp only [msEncFwdSet, Bool.false_eq_true] at hk <;> simp only [encSet] at h1 h2 <;>
-              first
-              | (obtain ⟨_, rfl⟩ := ite_none_some h1; obtain ⟨_, rfl⟩ := ite_none_some h2; exact ⟨hu.1, by first | exact hu.2 | rfl⟩)
-              | (obtain ⟨_, rfl⟩ := ite_some_none h1; obtain ⟨_, rfl⟩ := ite_some_none h2; exact ⟨hu.1, by first | exact hu.2 | rfl⟩)
-          · rw [encCtl_set_reject e k v hle, encCtl_set_reject e' k v (fun h => hle (hl.mpr h))]
-            exact hu
-        · exact hchAll _
+          obtain ⟨s1, h1, e1⟩ := hsome e he
+          obtain ⟨s2, h2, e2⟩ := hsome e' he'
+          left
+          rw [e1, e2, (encSet_first_app h1).1, (encSet_first_app h2).1]
+          exact ⟨id, id⟩
     · have : (msEncCtl s (.set k v)).1 = s ∨ ∃ b, (msEncCtl s (.set k v)).1 = { s with bitrateBps := b } ∨
           (msEncCtl s (.set k v)).1 = { s with variableDuration := b } := by
         cases k <;> simp only [msEncFwdSet, not_true_eq_false] at hk <;> simp only [msEncCtl]
@@ -280,19 +343,18 @@ theorem msEncCtl_inv {s : MsEncSt} (hi : MsInv s) (r : MsEncReq) : MsInv (msEncC
           · exact Or.inr ⟨_, Or.inr rfl⟩
           · exact Or.inl rfl
         · exact Or.inl rfl
-      rcases this with h | ⟨b, h | h⟩ <;> rw [h] <;> exact ⟨hi.streams, hi.uniform, hi.layout⟩
+      rcases this with h | ⟨b, h | h⟩ <;> rw [h] <;> exact ⟨hi.streams, hi.app, hi.firstHead, hi.layout⟩
   | get k nn =>
     have : (msEncCtl s (.get k nn)).1 = s := by
       cases k <;> simp only [msEncCtl] <;> (try split) <;> (try split) <;> rfl
     rw [this]; exact hi
   | resetState =>
-    simp only [msEncCtl]
-    apply key .resetState
-    · intro e _ e' _; simp [encCtl, Ret.ok]
-    · exact hfailAll _
+    simp only [msEncCtl] at hcode ⊢
+    apply key .resetState hcode
     · intro e he e' he'
-      exact ⟨rfl, (hi.uniform e he e' he').2⟩
-    · exact hchAll _
+      exact hi.app e he e' he'
+    · intro e _ e' _
+      right; exact ⟨rfl, rfl⟩
   | getEncoderState id nn =>
     have : (msEncCtl s (.getEncoderState id nn)).1 = s := by
       simp only [msEncCtl]; split
@@ -336,7 +398,7 @@ theorem msEncInit_inv {fs channels streams coupled : Int} {mapping : List Nat} {
               split
               · right; rfl
               · left; rfl
-            refine ⟨?_, ?_, ?_⟩
+            refine ⟨?_, ?_, ?_, ?_⟩
             · intro e he
               obtain ⟨n, _, hn | hn⟩ := hmem e he
               · rw [hn]; apply encInit_inv; apply hargs; split <;> simp
@@ -347,7 +409,9 @@ theorem msEncInit_inv {fs channels streams coupled : Int} {mapping : List Nat} {
                 exact ⟨{ hc with lfe := rfl }, { hd with }⟩
             · intro e he e' he'
               obtain ⟨n, _, hn | hn⟩ := hmem e he <;> obtain ⟨n', _, hn' | hn'⟩ := hmem e' he' <;>
-                rw [hn, hn'] <;> exact ⟨rfl, rfl⟩
+                rw [hn, hn'] <;> rfl
+            · intro e0 es _ e he hf
+              obtain ⟨n, _, hn | hn⟩ := hmem e he <;> rw [hn] at hf <;> simp [encInit] at hf
             · by_cases hlt : coupled < streams
               · exact Or.inl hlt
               · right
